@@ -47,7 +47,7 @@ probes! {
     read_ended_in_trailing_padding, read_ended_in_header, two_msgs_coalesced_in_one_read, validate_with_start_gt0,
     make_contiguous_ran, oom_returned, poisoned_set, recv_retried_after_err, send_retried_after_err_at0,
     send_on_poisoned_refused, retained_guard, msg_with_trailing_padding, msg_at_max_len, default_in_place_used,
-    tweaks_applied, producer_left_invalid_message, producer_panicked, value_clamped_to_fit,
+    tweaks_applied, producer_left_invalid_message, producer_panicked, producer_wrote_outside_buffer, value_clamped_to_fit,
     spurious_poll, delayed_wake_fired, sched_switch, pipe_full_block, pipe_empty_block,
     parse_err_returned, closed_returned, msgs_delivered, msgs_sent_ok, aim_unconfirmed, aim_confirmed,
     prefix_accepted_padding_exception, hostile_guard_handed_out,
@@ -220,6 +220,8 @@ pub struct RecvRec {
     pub consumed_after: usize,
     pub saw_err: bool,
     pub saw_err_hard: bool,
+    /// at the end of the call: the writer had gone away and every accepted byte had been delivered
+    pub stream_exhausted: bool,
     pub saw_eof: bool,
     /// (start, end, capacity, poisoned) after the call (and after the guard was dropped)
     pub window_after: (usize, usize, usize, bool),
@@ -910,6 +912,7 @@ impl World {
             consumed_after: 0,
             saw_err: false,
             saw_err_hard: false,
+            stream_exhausted: false,
             saw_eof: false,
             window_after: win,
             window_before: win,
@@ -950,7 +953,9 @@ impl World {
         }
         let consumed = self.consumed;
         let d = self.pipe.delivered_total;
+        let exhausted = (self.pipe.writer_closed && self.pipe.buf.is_empty()) || self.eof_at.map(|k| d >= k).unwrap_or(false);
         let r = self.recvs.last_mut().unwrap();
+        r.stream_exhausted = exhausted;
         if let (RecvOutcome::ReadErr(k), true) = (&outcome, true) {
             if k == "OutOfMemory" && !r.saw_err {
                 self.stats[P::oom_returned as usize] += 1;
